@@ -51,6 +51,9 @@ func H_fmtbytes(p []int) {
 	wf, ls := wfls(out)
 	vAssert(wf, "C01/wf")
 	vAssert(ls, "C03/lineSafe")
+	if vProp("C03") {
+		vAssert(linesWF(out), "C03/each-line-wf")
+	}
 	vCover(len(out) > 0 && hasMarker(out), "envelope-produced")
 }
 
